@@ -7,7 +7,7 @@ class Fn:
         self.j = j
         self.crate = crate
         self.path = j["path"]
-        self.kind = j["kind"]
+        self.kind = j["kind"].split(" ")[0]       # "Const { is_type_const: false }" -> "Const"
         self.blocks = j["blocks"]
         self.locals = j["locals"]
         self.arg_count = j["arg_count"]
@@ -354,6 +354,86 @@ class Fn:
                 yield b, i, s
 
 
+# ---- MIR-level inlining of helper functions
+def _remap(x, L, B, PR):
+    """deep copy of a piece of body JSON with locals shifted by L, blocks by B and promoted indices by PR"""
+    if isinstance(x, list):
+        return [_remap(y, L, B, PR) for y in x]
+    if isinstance(x, dict):
+        if len(x) == 2 and "l" in x and "p" in x:
+            return {"l": x["l"] + L, "p": [_remap(e, L, B, PR) for e in x["p"]]}
+        out = {}
+        for k, v in x.items():
+            if k in ("target", "otherwise", "unwind", "imaginary", "drop") and isinstance(v, int) and not isinstance(v, bool):
+                out[k] = v + B
+            elif k == "arms":
+                out[k] = [[a, b + B] for a, b in v]
+            elif k == "promoted" and isinstance(v, int) and not isinstance(v, bool):
+                out[k] = v + PR
+            elif k == "idx" and isinstance(v, int) and not isinstance(v, bool):
+                out[k] = v + L
+            else:
+                out[k] = _remap(v, L, B, PR)
+        return out
+    return x
+
+
+def inline_calls(prog, fn, should_inline, max_rounds=6):
+    """A copy of `fn` in which every direct call to a workspace function accepted by should_inline(path) is replaced
+    by that function's body (arguments assigned to its parameter locals, its returns assigned to the call's
+    destination). Semantics-preserving; unwinding edges of the inlined call are dropped (cleanup paths are never
+    analysed). Recursive helpers are left as calls."""
+    blocks = [dict(b) for b in fn.blocks]
+    locals_ = list(fn.locals)
+    promoted = list(fn.promoted)
+    stack_of = {b: () for b in range(len(blocks))}      # inline stack per block (recursion guard)
+    inlined = []
+    for _ in range(max_rounds):
+        did = False
+        for b in range(len(blocks)):
+            blk = blocks[b]
+            t = blk["term"]
+            if not t or t["t"] != "call" or blk["cleanup"]:
+                continue
+            c = callee_of(t)
+            g = prog.fns.get(c)
+            if g is None:
+                g = prog.fns.get(t.get("callee") or "")
+            if g is None or g.is_coroutine or g.kind not in ("Fn", "AssocFn") or not should_inline(g.path):
+                continue
+            stk = stack_of.get(b, ())
+            if g.path in stk or g.path == fn.path or len(t["args"]) != g.arg_count:
+                continue
+            L, B, PR = len(locals_), len(blocks), len(promoted)
+            locals_ += g.locals
+            promoted += g.promoted
+            gb = _remap(g.blocks, L, B, PR)
+            loc = t.get("loc")
+            stmts = list(blk["stmts"])
+            for i, a in enumerate(t["args"]):
+                stmts.append({"s": "assign", "dst": {"l": L + 1 + i, "p": []}, "rv": "use", "a": a, "loc": loc})
+            blocks[b] = dict(blk, stmts=stmts, term={"t": "goto", "target": B, "loc": loc, "inlined_call": g.path})
+            for i, nb in enumerate(gb):
+                tt = nb["term"]
+                if tt and tt["t"] == "return" and not nb["cleanup"]:
+                    if t.get("target") is None:
+                        nb["term"] = {"t": "unreachable", "loc": tt.get("loc")}
+                    else:
+                        nb["stmts"] = list(nb["stmts"]) + [{"s": "assign", "dst": t["dest"], "rv": "use",
+                                                            "a": {"k": "move", "pl": {"l": L, "p": []}}, "loc": tt.get("loc")}]
+                        nb["term"] = {"t": "goto", "target": t["target"], "loc": tt.get("loc")}
+                stack_of[B + i] = stk + (g.path,)
+                blocks.append(nb)
+            inlined.append(g.path)
+            did = True
+        if not did:
+            break
+    if not inlined:
+        return fn
+    j = dict(fn.j, blocks=blocks, locals=locals_, promoted=promoted, inlined=sorted(set(inlined)))
+    return Fn(j, fn.crate)
+
+
 def callee_of(t):
     """canonical callee path of a call terminator: the resolved impl method when the
     driver could resolve the trait call, else the declared callee"""
@@ -393,6 +473,19 @@ class Prog:
 
     def fn(self, path):
         return self.fns.get(path)
+
+    def inline_helpers(self, vocabulary):
+        """Replace every function body by a copy in which calls to workspace functions *outside* `vocabulary`
+        (helpers the rules have no name for) are inlined; the helpers themselves stay available. Returns the list of
+        helper paths."""
+        helpers = sorted(p for p, f in self.fns.items() if f.kind in ("Fn", "AssocFn") and not f.derived and p not in vocabulary)
+        if not helpers:
+            return []
+        hs = set(helpers)
+        self.raw_fns = dict(self.fns)
+        for p, f in list(self.fns.items()):
+            self.fns[p] = inline_calls(self, f, lambda c: c in hs)
+        return helpers
 
     def find_fns(self, suffix):
         return [f for p, f in self.fns.items() if p == suffix or p.endswith("::" + suffix)]
